@@ -42,6 +42,26 @@ def families(tier, seed):
     r.shuffle(tagc)
     for kind, sc, tc, tr, ds, es in tagc[: (len(tagc) if tier == "thorough" else 350)]:
         out.append((kind, graphgen.graph_cfg(3, es, tag_carriers=tc, tag_requests=tr, decorators=ds, scopes=sc)))
+    # several decorators on different tags, in both declaration orders: the dependencies of one decorator are not those of another
+    multi = []
+    for sc in itertools.product(SCOPES, repeat=3):
+        if "shared" not in sc or "contextual" not in sc:
+            continue
+        for c0, c1 in itertools.product(range(3), repeat=2):
+            for dref in range(3):
+                for rev in (False, True):
+                    ds = [("t0", [dref], []), ("t1", [], [])]
+                    multi.append((dict(enumerate(sc)), {"t0": [c0], "t1": [c1]}, ds[::-1] if rev else ds))
+    r.shuffle(multi)
+    for sc, tc, ds in multi[: (len(multi) if tier == "thorough" else 200)]:
+        out.append(("multi-decorator", graphgen.graph_cfg(3, set(), tag_carriers=tc, decorators=ds, scopes=sc)))
+    # a reference to an undeclared service is not a scope matter, wherever it stands among the arguments
+    for k in range(60 if tier == "quick" else 1500):
+        n = r.randint(3, 5)
+        es = {(a, b) for a in range(n) for b in range(n) if a < b and r.random() < 0.4}
+        sc = {i: r.choice(["shared", "contextual", None]) for i in range(n)}
+        gh = {i: r.choice(["first", "last"]) for i in range(n) if r.random() < 0.5}
+        out.append(("undeclared-dep", graphgen.graph_cfg(n, es, scopes=sc, ghosts=gh, order=r.choice(["asc", "desc"]))))
     for k in range(60 if tier == "quick" else 3000):
         n = r.randint(4, 7)
         es = {(a, b) for a in range(n) for b in range(n) if a < b and r.random() < 0.3}   # acyclic
